@@ -10,7 +10,8 @@ from props import c04
 RULE = ("documents with keys/values over an adversarial alphabet (quote, backslash, colon, braces, brackets, comma, space, non-ASCII, "
         "the two-character sequence quote-colon), nesting depth <= 6, rendered by json.dumps(indent=4) and passed through the real "
         "prettyPrint at widths 29, 34 and random: (S) json.loads of the result equals the document, (M) the text equals the model's; "
-        "plus arbitrary text lines, end-to-end parsePEL of text/JSON user-data sections, and the command line (-a, -l, -f stdout and -j "
+        "json.loads against its Gallina model (edge list, random token soup, valid and damaged json.dumps output in several layouts) and "
+        "json.dumps(indent=4) against dumps4; plus arbitrary text lines, end-to-end parsePEL of text/JSON user-data sections, and the command line (-a, -l, -f stdout and -j "
         "files on directories with selected, filtered and undecodable files, in-process and as subprocesses) parsed back; non-trivial = distinct text with a key line")
 
 ALPHA = ['"', "\\", ":", "{", "}", "[", "]", ",", " ", "a", "Z", "0", "é", " ", "/", "'", "\":", "\": ", "k", "\t", "\\\"", "\x7f"]
@@ -117,9 +118,131 @@ def run(run, model, proof):
         if not ok:
             run.violation("pretty:pel-output", "the printed PEL does not parse back to the decoded document",
                           dict(kind="S", fn="parsePEL", input_hex=data.hex(), printed=js[:1500]))
+    # json.loads and json.dumps(indent=4) themselves against their Gallina models
+    for t in JSON_EDGE:
+        check_loads(run, model, t, "edge")
+    for i in range(20000 if thorough else 1500):
+        k = rng.randrange(4)
+        if k == 0:
+            text = "".join(rng.choice(JALPHA) for _ in range(rng.randrange(1, 14)))
+            tag = "random"
+        else:
+            doc = rdoc(rng) if k == 1 else int_doc(rng)
+            text = json.dumps(doc, indent=rng.choice([None, None, 4, 1]), ensure_ascii=rng.random() < 0.6,
+                              separators=rng.choice([None, (",", ":"), (" , ", " : ")]))
+            tag = "dumps"
+            if rng.random() < 0.5:
+                # damage a valid text
+                j = rng.randrange(len(text) + 1)
+                text = text[:j] + rng.choice(["", "", rng.choice(JALPHA)]) + text[j + rng.randrange(0, 2):]
+                tag = "damaged"
+        check_loads(run, model, text, tag)
+    for i in range(6000 if thorough else 500):
+        doc = int_doc(rng)
+        try:
+            json.dumps(doc).encode("utf-8")
+        except UnicodeEncodeError:
+            continue
+        check_dumps(run, model, doc, rng.choice([None, 29, 34, rng.randrange(0, 60)]))
     # the command line: what -a, -l, -f print and -j writes
     for i in range(600 if thorough else 60):
         cli_dir(run, model, rng, rng.choice([0, 1, 2, 3, 5, 8]), sub=(i % 30 == 0))
+
+
+def py_of_model(v):
+    """model value -> Python value with OrderedDict (no marker resolution)"""
+    if isinstance(v, tuple) and v and v[0] == "obj":
+        return OrderedDict((k, py_of_model(x)) for k, x in v[1])
+    if isinstance(v, list):
+        return [py_of_model(x) for x in v]
+    return v
+
+
+def has_float(v):
+    if isinstance(v, float):
+        return True
+    if isinstance(v, dict):
+        return any(has_float(x) for x in v.values())
+    if isinstance(v, list):
+        return any(has_float(x) for x in v)
+    return False
+
+
+JSON_EDGE = ["", " ", "null", "true", "false", "nul", "True", "0", "-0", "00", "01", "-", "--1", "+1", "1.", ".5", "1.5", "1e5", "1E+5", "1e", "1e+",
+             "-1.0e-2", "NaN", "-NaN", "Infinity", "-Infinity", "infinity", "[]", "{}", "[ ]", "{ }", "[,]", "[1,]", "[,1]", "{,}", '{"a"}', '{"a":}',
+             '{"a":1,}', '{"a" 1}', "{1:2}", '{"a":1 "b":2}', "[1 2]", "[1,2", "1 2", "[1]]", '"', '"a', '"\\"', '"\\', '"\\x"', '"\\u12"',
+             '"\\u12G4"', '"\\uD83D\\uDE00"', '"\\ud83d"', '"\\ude00\\ud83d"', '"\\ud83d\\u0041"', '"\\ud83d\\ud83d\\ude00"', '"\\ud83dx"',
+             '"\\/\\b\\f\\n\\r\\t\\"\\\\"', '"a\tb"', '"a\nb"', '"\x7f"', '"\u00e9\U0001f600"', "\ufeff1", "\f1", "1\f", "[\v]", "'a'",
+             '{"k":1,"j":2,"k":3}', '{"":{"":[[]]}}', "1" * 4300, "1" * 4301, "-" + "9" * 4300, "-" + "9" * 4301, "0" * 5, "[" * 200 + "]" * 200,
+             "[" * 201 + "]" * 201, "[" * 300, '{"a":' * 199 + "1" + "}" * 199, "[1e999]", '{"a": [1, 2.0]}', "\t\n\r 1 \t\n\r", "1\x00", "nullx",
+             "[nullx]", "truefalse", '[1"a"]', '"a""b"', "[1,\n2]", "\u00a01", "1\u2028"]
+
+JALPHA = list('[]{},:" \\') + ["\n", "\t", "1", "0", "-", ".", "e", "E", "+", "a", "u", "n", "t", "f", "l", "r", "s", "N", "I", "\\u", "d83d", "de00", "00e9", "é", "\\\"", "null", "true", '"k"', "12"]
+
+
+def check_loads(run, model, text, tag):
+    """the Gallina json.loads (Model/JsonLoads.v) against CPython's on the same text"""
+    run.evaluations += 1
+    run.count("loads:" + tag)
+    try:
+        data = text.encode("utf-8")
+    except UnicodeEncodeError:
+        return
+    try:
+        want = ("ok", json.loads(text, object_pairs_hook=OrderedDict))
+    except RecursionError:
+        want = ("deep",)
+    except ValueError:
+        want = ("error",)
+    got = model.call("loads", data)
+    gk = got[1][0][0] if isinstance(got, tuple) else "null"
+    rp = dict(fn="loads", text=text if len(text) < 3000 else text[:3000] + "...", kind="M", correspondence="Model.JsonLoads.loads vs json.loads")
+    if gk == "beyond":
+        run.count("loads:beyond")
+        if want[0] == "ok" and not has_float(want[1]) and text.count("[") + text.count("{") <= 200:
+            run.violation("loads:beyond-unjustified", "the model leaves a text to Python that holds no float and is not deep", rp, no_input=True)
+        return
+    if want[0] == "deep":
+        run.violation("loads:deep", "json.loads raises RecursionError, the model answers %s" % gk, rp, no_input=True)
+        return
+    ok = (gk == "error" and want[0] == "error") or \
+         (gk == "ok" and want[0] == "ok" and not has_float(want[1]) and pelgen.first_diff(want[1], py_of_model(got[1][0][1])) is None)
+    if want[0] == "ok":
+        run.nontriv(("loads", text))
+    if not ok:
+        run.disagreements_checked += 1
+        run.violation("loads:model-vs-impl", "json.loads gives %s, the model %s" % (want[0], gk),
+                      dict(rp, expected=repr(want)[:600], actual=repr(got)[:600]), no_input=True)
+
+
+def check_dumps(run, model, doc, w):
+    """json.dumps(doc, indent=4) and prettyPrint of it against the model's dumps4 / pretty_print, and the round trip"""
+    run.evaluations += 1
+    run.count("dumps4")
+    text = json.dumps(doc, indent=4)
+    got = model.call("dumps4", (w if w is not None else 34).to_bytes(2, "big"), json.dumps(doc))
+    d = dict(got[1]) if isinstance(got, tuple) else {}
+    rp = dict(fn="dumps4", doc=json.dumps(doc)[:3000], width=w, kind="M", correspondence="Model.JsonLoads.dumps4 vs json.dumps(indent=4)")
+    if d.get("text") != text:
+        run.disagreements_checked += 1
+        run.violation("dumps4:model-vs-impl", "json.dumps(indent=4) differs from the model's dumps4", dict(rp, expected=text[:1500], actual=str(d.get("text"))[:1500]), no_input=True)
+    elif d.get("printed") != real_pretty(text, w):
+        run.disagreements_checked += 1
+        run.violation("pretty:model-vs-impl", "prettyPrint(json.dumps(indent=4)) differs from the model", rp, no_input=True)
+
+
+def int_doc(rng, depth=0):
+    """documents without floats (the domain of the round-trip theorems)"""
+    k = rng.randrange(8 if depth < 5 else 4)
+    if k == 0:
+        return rng.choice([0, -1, 7, 10 ** 30, -(10 ** 19), rng.randrange(-3, 1 << 33)])
+    if k in (1, 2):
+        return rtext(rng, rng.randrange(0, 10)) + rng.choice(["", "\U0001f600", "\ud800", "\x00\x1f"])
+    if k == 3:
+        return rng.choice([True, False, None])
+    if k in (4, 5):
+        return [int_doc(rng, depth + 1) for _ in range(rng.randrange(0, 4))]
+    return OrderedDict((rtext(rng, rng.randrange(0, 7)), int_doc(rng, depth + 1)) for _ in range(rng.randrange(0, 5)))
 
 
 def cli_dir(run, model, rng, nfiles, sub=False):
